@@ -73,7 +73,10 @@ def gen_spec(rng, res, root, p_bad_value=0.15, p_missing=0.12,
             if dt in ("string", "null") and rng.random() < 0.3:
                 val = rng.choice(["a$b", "$x", "a=b", "${y}", "$$", "$(HOME)",
                                   "$(ZCV_NOPE)", "a$(PATH)b", "$(date)",
-                                  "$(", "$"])
+                                  "$(", "$",
+                                  # names the environment does have
+                                  "$ZCV_SET", "a${ZCV_SET}b", "$HOME",
+                                  "${PATH}", "$Def1", "~"])
                 info["dollar"] = True
     info["depth"] = len(comps) - 1
     info["target"] = (id(node), repr(family.norm_key(cont.keytype, comps[-1])
